@@ -160,6 +160,13 @@ class ExactGeneric(Relation):
                       f'{kind} | editing a returned exact mask changes the '
                       'mask returned by the next call')
             bb = mask.bbox
+            # 'exact' is 'exact' whatever subpixels= says
+            for nsub in ((1, 3) if d.size < 2500 else (1,)):
+                alt = np.asarray(reg.to_mask('exact', nsub).data)
+                ctx.check(np.array_equal(alt, d),
+                          f'{kind} | a subpixels argument changes the exact '
+                          'mask', f'subpixels={nsub}: '
+                          f'{int((alt != d).sum())} pixels differ')
             ctx.check(np.all(np.isfinite(d)), f'{kind} | non-finite exact value')
             ctx.check(d.min() >= 0 and d.max() <= 1 + 1e-12,
                       f'{kind} | exact value outside [0, 1]',
